@@ -17,7 +17,9 @@ EVENT = {p: f'on_{p}_change' for p in PROPS}
 ROT2 = [0, 42, 359.5, 360, 370, 720.25, -10, -360, 1000.0, -0.5, 0.25,
         -720, 359.75, 1e6,
         # whole numbers beyond 2**53: exactly representable as ints
-        2 ** 53 + 1, -(2 ** 53 + 1), 10 ** 18 + 7, 2 ** 64 + 33]
+        2 ** 53 + 1, -(2 ** 53 + 1), 10 ** 18 + 7, 2 ** 64 + 33,
+        # residues a hair below a full turn (exact in binary)
+        359.99999999999994, -2.0 ** -42, 720 - 2.0 ** -41, 360 - 2.0 ** -40]
 COMPS = [0, 1, -1, 0.5, 2, 10.25, -3.5, 100]
 
 
